@@ -73,9 +73,11 @@ def do_reads(net, U, which, st, problems, hist, last_mut):
 
 
 def run_history(hist, st: Stats):
-    """hist: list of ('m', op) / ('r', which).  Returns problems [(sig, msg)]."""
+    """hist: list of ('m', op) / ('r', which); 'm2' / 'r2' address a SECOND network that is made of the same
+    element objects (one universe).  Returns problems [(sig, msg)]."""
     U = Universe(STD_UNIVERSE)
     net = M.Network(name="net")
+    net2 = None
     problems = []
     last_mut = "init"
     for kind, x in hist:
@@ -83,9 +85,46 @@ def run_history(hist, st: Stats):
             st.inc("transitions")
             apply_real(net, x, U)  # exceptions of malformed paths are C09's business
             last_mut = opname(x)
-        else:
+        elif kind == "r":
             do_reads(net, U, x, st, problems, hist, last_mut)
+        else:
+            if net2 is None:
+                net2 = M.Network(name="net2")
+            if kind == "m2":
+                st.inc("transitions")
+                apply_real(net2, x, U)
+                last_mut = "other-network/" + opname(x)
+            else:
+                p2 = []
+                do_reads(net2, U, x, st, p2, hist, last_mut)
+                problems += [(sig.replace("C08/", "C08/second-network/", 1), "second network: " + msg) for sig, msg in p2]
     return problems, net, U
+
+
+def worker_c(item):
+    """Two networks over ONE universe of element objects (nodes, links, origins and destinations are plain objects and
+    may be used in several networks): k mutations on the first, all lookups read, k on the second, all lookups of both
+    read; plus the interleaved histories first / second / first with all lookups of both read after every call."""
+    firsts, k = item
+    st = Stats()
+    for m1 in firsts:
+        if k == "interleaved":
+            hs = [[("m", m1), ("r", ALL), ("m2", m2), ("r2", ALL), ("r", ALL), ("m", m3), ("r", ALL), ("r2", ALL)]
+                  for m2 in MUTATIONS for m3 in MUTATIONS]
+        else:
+            hs = []
+            for ms in itertools.product(MUTATIONS, repeat=2 * k - 1):
+                a, b = (m1,) + ms[:k - 1], ms[k - 1:]
+                hs.append([("m", m) for m in a] + [("r", ALL)] + [("m2", m) for m in b] + [("r2", ALL), ("r", ALL)])
+        for hist in hs:
+            st.inc("states")
+            st.inc("executions")
+            st.inc("two_network_histories")
+            problems, net, U = run_history(hist, st)
+            st.outcome(snapshot(net, U).key())
+            for sig, msg in problems:
+                st.violation(sig, msg, {"explorer": "C", "history": hist})
+    return st
 
 
 def worker_a(item):
@@ -216,11 +255,19 @@ def explore(tier, seed, nproc):
         r = run_shards(worker_a, items, nproc)
         a_hist[k] = r.c.get("states", 0)
         st.merge(r)
+    c_hist = {}
+    for k in ((1, 2, "interleaved") if tier == "quick" else (1, 2, "interleaved")):
+        r = run_shards(worker_c, [([m], k) for m in firsts], nproc)
+        c_hist[str(k)] = r.c.get("states", 0)
+        st.merge(r)
     n_states_b, levels, completed = explore_b(depth_b, nproc, st)
     st.inc("states", n_states_b)
     cov = {
         "explorer_A": {"history_length_completed": max(k for k, _ in plans), "histories_per_length": a_hist,
                        "mutation_alphabet": len(MUTATIONS), "read_alphabet": len(READS) + 2},
+        "explorer_C_two_networks": {"histories": c_hist, "rule": "k mutations on a first network, all lookups read, k mutations on a "
+                                    "second network made of the same element objects, all lookups of both read (k = 1, 2); "
+                                    "and first/second/first with all lookups of both read after every call"},
         "explorer_B": {"depth_completed": completed, "distinct_states": n_states_b, "new_states_per_level": levels,
                        "transitions_per_state": len(B_TRANS)},
         "rule": "A: every history m1 R1 .. mk over the alphabets (final read of all lookups); "
